@@ -159,6 +159,26 @@ CHECKS["C07"] = dict(
     design_ref="DESIGN.md section 6, C07",
 )
 
+CHECKS["C08"] = dict(
+    category="other",
+    technique="who-may-construct rule on the phantom-typed id-space marker, effect check that update_to_new_ids rewrites every value through new_id on the map it returns, signature rule on the cmap builders, comparison-discipline rule on the selection, exhaustive table reading of the Mac Roman tables, narrowing rule; compile_fail witness (thorough)",
+    text=("Static decision of the id-space typestate behind C08 (MappingsToKeep<OldIds>/<NewIds> constructed in exactly two functions, every value "
+          "translated through new_id, cmap builders accept only new ids), of the order-independent selection of mappings, of the mutual "
+          "inverseness of the Mac Roman tables, and of the absence of unchecked narrowing of ids and codes in the cmap builders. That the "
+          "emitted sub-tables map each character to the right glyph is not decided."),
+    design_ref="DESIGN.md section 6, C08",
+)
+CHECKS["C15"] = dict(
+    category="other",
+    technique="layout-trace extraction from MIR along the success path of every reader/writer pair (incl. tagged codecs paired by tag constant) and position-wise comparison of width, field and constants; kernel reading of the primitive codecs; narrowing rule with an independently audited ledger; must-pass-through rule for placeholders; provenance rule for position-derived placeholder values",
+    text=("Static decision of necessary structural conditions of round-tripping: primitive codec widths equal their readers' SIZE; for 38 "
+          "reader/writer pairs and tagged arms (head, hhea, maxp 0.5/1.0, name, post header, hmtx, cvt, loca format, cmap formats 0/4/6/10/12, "
+          "CFF headers/ranges/charsets/encodings/FDSelect, variation store records, glyf bounding box and glyph headers) the item sequences "
+          "agree in width, field and constants; no unchecked lossy cast remains in writer code; every placeholder is filled on every Ok path; "
+          "position-derived offsets are relative. Equality of values, and data-dependent layouts beyond the compared prefix, are not decided."),
+    design_ref="DESIGN.md section 6, C15",
+)
+
 NOT_APPLICABLE = {
     "C05": "every clause is a numeric relation between table contents and output values; the structural parts (termination, borrow and panic discipline, attachment index validation) are decided under C02; no GPOS-specific clause is visible in the shape of the code",
 }
